@@ -94,6 +94,12 @@ CHECKS = {
         technique=SYMEX,
         ref="4 C04",
     ),
+    "C08": dict(
+        text="Bounded: (xh) CrossHair on the real convert_partial_match_to_regex + real re.match with pattern AND path symbolic (<= 3 chars over {a,*,.,+}; <= 2 chars over regex metacharacters) vs the glob semantics: Confirmed over all paths. (z3str) z3 string theory on the converter's AST (translated at run time, 4 paths) vs the glob semantics for every non-empty pattern and every path up to 6-7 printable ASCII characters: unsat. (walk) SYMEX on the real Parser.parse over a symbolic file system (10 candidate paths) with a SYMBOLIC exclusion predicate (one atom per path): module present iff its path exists and no ancestor-or-self path at or below module_path is excluded; excluded files never opened. (e2e) get_evaluable_architecture with 16 exclusion tuples in the four glob shapes built from names with regex metacharacters (a+b.py, c(1), x$y.py; prefix siblings ab / aab; test / mytest) and the equivalent regex_exclusions vs the unfiltered scan over every existence / import-line assignment of an 11-path tree: remaining modules and the imports among them equal the unfiltered ones restricted.",
+        note="Trusted: CrossHair/z3; re.escape modelled as 'matches exactly the text' in the z3 encoding (the kernels run the real re); SymFS stub (models materialised as real directories); paths without newlines. Observation, not a finding: get_evaluable_architecture(exclusions=()) without regex_exclusions raises TypeError (None handed to the file filter); the unfiltered scan therefore uses the default exclusions.",
+        technique=XH + "; " + Z3RE + " (string theory on the converter's AST); " + SYMEX,
+        ref="4 C08",
+    ),
 }
 
 NOT_YET = {}
